@@ -106,6 +106,7 @@ type Sim struct {
 	connSeq   int
 	connCount map[string]int
 	sndWindow int // >0: server-side writes block while this many bytes are undelivered
+	statMu    sync.Mutex
 	actors    []*Actor
 	gmap      map[uint64]*ginfo // goroutine id -> identity
 
@@ -164,10 +165,20 @@ func (s *Sim) logf(format string, args ...interface{}) {
 	if !s.logOn {
 		return
 	}
-	s.log = append(s.log, fmt.Sprintf("%d ", s.step)+fmt.Sprintf(format, args...))
+	line := fmt.Sprintf("%d ", s.step) + fmt.Sprintf(format, args...)
+	s.statMu.Lock()
+	s.log = append(s.log, line)
+	s.statMu.Unlock()
 }
 
-func (s *Sim) stat(name string, n int) { s.stats[name] += n }
+// stat counts an event. Server goroutines count too (from hooks and from the simulated
+// sockets), and on a loaded machine one of them can be preempted in the middle of a map
+// assignment while the scheduler goroutine counts something else: the map has its own lock.
+func (s *Sim) stat(name string, n int) {
+	s.statMu.Lock()
+	s.stats[name] += n
+	s.statMu.Unlock()
+}
 
 // statLocked is for hook callbacks that already hold s.mu.
 func (s *Sim) violate(class, format string, args ...interface{}) {
